@@ -103,7 +103,7 @@ __CPROVER_requires(ZV(n) >= -((i128)1 << 63) && ZV(n) < ((i128)1 << 63))
 __CPROVER_assigns(*self)
 __CPROVER_ensures(w_is(*self, w, wrapz(ZV(n), w)));
 i128 QM_ceil(i128, i128);
-#define QV(q, i) ((i128)(((u128)(q)->f0.a[0].i.f1 << 64) | (u128)(q)->f0.a[0].i.f0))
+#define QV(q, i) ((i128)(((u128)(q)->f0.a.i.f1 << 64) | (u128)(q)->f0.a.i.f0))
 void _ZN4crab7wrapintC2EN4ikos8q_numberEm(W *self, Q *n, uint64_t w)
 __CPROVER_requires(FRESH(ctor_q, self, sizeof(W)) && FRESH(ctor_q, n, sizeof(Q)) && w >= 1 && w <= 64 && FIXW(w))
 __CPROVER_requires(QM_ceil(QV(n, f0), QV(n, f1)) >= -((i128)1 << 63) && QM_ceil(QV(n, f0), QV(n, f1)) < ((i128)1 << 63))
